@@ -20,7 +20,7 @@ BOUNDS = {
     'quick': {'program_depth': 2, 'derivation_trees': 'parent -> 2 children -> grandchild',
               'backends': ['flat (2 files)', 'array'], 'dtypes': ['int16', 'float32'],
               'unbounded': ['scalar arguments', 'recording length / part sizes', 'row index', 'sample values']},
-    'thorough': {'program_depth': 3, 'derivation_trees': 'parent -> 2 children -> grandchild',
+    'thorough': {'program_depth': '3 (four backend/dtype combinations), 2 (seven more)', 'derivation_trees': 'parent -> 2 children -> grandchild',
                  'backends': ['flat (2 files)', 'array', 'npy', 'cbin'], 'dtypes': ['int16', 'float32', 'float64'],
                  'unbounded': ['scalar arguments', 'recording length / part sizes', 'row index', 'sample values']},
 }
@@ -94,11 +94,18 @@ def configs(tier):
                   ('array', 1, 'float64', 'float', 'list2'), ('npy', 1, 'int16', 'int', 'slice'),
                   ('npy', 1, 'float32', 'float', 'list2'), ('cbin', 1, 'int16', 'float', 'slice'),
                   ('cbin', 1, 'float32', 'int', 'slice')]
-    D = 2 if quick else 3
-    for backend, K, dtype, sk, item in combos:
+    for ci, (backend, K, dtype, sk, item) in enumerate(combos):
+        # thorough: depth 3 on the first four combinations, depth 2 on the others
+        D = 2 if (quick or ci >= 4) else 3
         for first in range(len(OPS)):
-            out.append({'kind': 'prog', 'backend': backend, 'K': K, 'dtype': dtype, 'scalar': sk,
-                        'item': item, 'depth': D, 'first': first, 'nc': 3 if item == 'slice' else 2})
+            if D == 3:
+                for second in range(len(OPS)):
+                    out.append({'kind': 'prog', 'backend': backend, 'K': K, 'dtype': dtype, 'scalar': sk,
+                                'item': item, 'depth': D, 'first': first, 'second': second,
+                                'nc': 3 if item == 'slice' else 2})
+            else:
+                out.append({'kind': 'prog', 'backend': backend, 'K': K, 'dtype': dtype, 'scalar': sk,
+                            'item': item, 'depth': D, 'first': first, 'nc': 3 if item == 'slice' else 2})
     for backend, K, dtype in ([('flat', 2, 'int16'), ('array', 1, 'float32')] if quick else
                               [('flat', 2, 'int16'), ('array', 1, 'float32'), ('flat', 2, 'float32'),
                                ('array', 1, 'int16')]):
@@ -210,7 +217,8 @@ def run_config(cfg, e):
                 prog = []
                 width = rec.nc
                 for i in range(cfg['depth']):
-                    oi = cfg['first'] if i == 0 else e.choice('op%d' % i, list(range(len(OPS))))
+                    oi = cfg['first'] if i == 0 else (cfg['second'] if (i == 1 and 'second' in cfg) else
+                                                      e.choice('op%d' % i, list(range(len(OPS)))))
                     op = OPS[oi]
                     arg, parg = _mkarg(e, op, cfg['scalar'], i, width)
                     if op == 'cols':
